@@ -651,6 +651,28 @@ def c11(report, rng, tier, findings):
                                          'cond': body_t + [('cmp', 'eq', ('attr', 'ref', ('var', z)), ('var', x_))]}}
             case['nested_head'] = True
             report.count('variable_only_inside_a_nested_argument_disjunctive_body')
+        if i % 8 == 3:
+            # template: a constructor argument that is a the(...) SUB-QUERY with a condition, built in rule mode:
+            # T(f0=x, f1=the(entity(z, z.a == 7))) - exactly one object carries a == 7
+            z = 91
+            objs_ = [(j, c_, dict(at)) for j, c_, at in base['objs']]
+            jz = rng.randrange(len(objs_))
+            objs_[jz][2]['a'] = ('i', 7)
+            all_objs = [('o', j) for j, _, _ in objs_]
+            root_cls = base['classes'][0][0]
+            link = ('cmp', 'eq', ('attr', 'a', ('var', z)), ('lit', ('i', 7)))
+            args_s = [('var', v) for v in ids] + [('subq', 'the', z, link)]
+            body_s = []
+            for v in ids:
+                g.var_ids = [v]
+                body_s.append(g.atom())
+            g.var_ids = ids
+            case = {'id': f'i{i}', 'classes': base['classes'], 'objs': objs_, 'vars': list(base['vars']) + [(z, root_cls, all_objs)],
+                    'args': args_s, 'rule': {'tag': 0, 'cond': body_s, 'kids': []}}
+            case['explicit'] = {**case, 'args': [('var', v) for v in ids] + [('var', z)],
+                                'rule': {'tag': 0, 'kids': [], 'cond': body_s + [link]}}
+            case['nested_head'] = True
+            report.count('constructor_argument_is_a_the_subquery')
         if rng.random() < 0.25:
             case['pre_take'] = rng.randint(1, 3)
         if rng.random() < 0.15:
